@@ -39,7 +39,10 @@ Cl_InvertsForward == Usable => (Strict \/ AsImplementedD7)
 KF_D7_InvertsForward == (Usable /\ O.probe) => Strict
 Cl_UnitsNormalised == /\ (E.ev = "Point" => E.Punits = KG)
                       /\ (E.ev = "PPoint" => /\ E.Punits[1] = KG /\ E.Punits[2] = KG
-                                             /\ EqR(E.Pexposed[1], E.Pkg[1], E.Pkg[1]) /\ EqR(E.Pexposed[2], E.Pkg[2], E.Pkg[2]))
+                                             /\ EqR(E.Pexposed[1], E.Pkg[1], E.Pkg[1]) /\ EqR(E.Pexposed[2], E.Pkg[2], E.Pkg[2])
+                                             \* also when fluxes and permeances are supplied together
+                                             /\ E.Pboth_units[1] = KG /\ E.Pboth_units[2] = KG
+                                             /\ EqR(E.Pboth[1], E.Pkg[1], E.Pkg[1]) /\ EqR(E.Pboth[2], E.Pkg[2], E.Pkg[2]))
 Cl_FluxesFromPermeances == (E.ev = "PPoint") => C!FluxesArePermeanceTimesFeed(E.J, E.Pexposed, E.pf)
 Cl_ReinvertsBack == (E.ev = "PPoint") => EqR(E.Pre[1], E.Pkg[1], E.Pkg[1]) /\ EqR(E.Pre[2], E.Pkg[2], E.Pkg[2])
 Cl_YFromFluxes == (E.ev = "Point") => EqR(E.y, C!Y(E.J), Lit("1.0"))
